@@ -62,6 +62,10 @@ def gen_case(rng, k, consts):
         new = np.array([[float(x) for x in row] for row in (f @ old)])
         if det(new) <= 0 or det(old) <= 0:
             new, old = np.eye(3) * 5.0, np.eye(3) * 4.0
+        if rng.random() < 0.2:
+            # a left-handed set of cell vectors (negative determinant, positive volume) is a legal ASE cell: swap two vectors of both cells
+            old, new = old[[1, 0, 2]], new[[1, 0, 2]]
+            c["left_handed"] = True
         c["cell_old"], c["cell_new"] = old.tolist(), new.tolist()
         c["P"] = rng.choice([0.0, dy(rng, -0.02, 0.05, 16), dy(rng, 0, 0.5, 10)])
     if kind == "tens":
